@@ -157,6 +157,86 @@ def rule_k2(F):
     return r
 
 
+K3_OK = {}  # (function suffix, line-free description) -> reason; no reviewed site on the reference tree
+
+
+def _unguarded_subs(b):
+    """Unsigned subtractions `a - b` (plain operator: panics in debug builds, wraps in release builds) that are not dominated by
+    a comparison involving the same two operands."""
+    out = []
+    defs = None
+    dom = None
+    for bi, blk in enumerate(b.blocks):
+        if blk.get("cleanup"):
+            continue
+        for st in blk["stmts"]:
+            if st["k"] != "assign" or st["rv"]["k"] != "bin" or not st["rv"]["op"].startswith("Sub"):
+                continue
+            ty = b.mir["locals"][st["p"][0]]["ty"]
+            if not (ty.startswith("(u") or ty.startswith("u")):
+                continue
+            if defs is None:
+                defs = mir.Defs(b)
+                dom = mir.dominators(b)
+
+            def key(o):
+                c = mir.op_const(o)
+                if c is not None:
+                    return "const:%s" % c.get("v")
+                return mir.origin_key(b, defs, o[1]) if mir.is_place_op(o) else "?"
+            ka, kb = key(st["rv"]["a"]), key(st["rv"]["b"])
+            guarded = False
+            for di in dom[bi]:
+                t = b.blocks[di]["term"]
+                if t["k"] != "switch" or not mir.is_place_op(t["o"]):
+                    continue
+                for d in defs.whole_defs(t["o"][1][0]):
+                    if d[2] == "assign" and d[3]["rv"]["k"] == "bin" and d[3]["rv"]["op"] in ("Lt", "Le", "Gt", "Ge", "Eq", "Ne"):
+                        ks = {key(d[3]["rv"]["a"]), key(d[3]["rv"]["b"])}
+                        if ka in ks and (kb in ks or kb.startswith("const:")):
+                            guarded = True
+            out.append((st.get("line", 0), ka, kb, guarded))
+    return out
+
+
+def rule_k3(F):
+    r = RuleResult("C10.K3", "no unguarded unsigned subtraction in built-ins: `len - 1` style arithmetic on run-time quantities underflows (panic in the trampoline, or a wrapped size)", floor=0)
+    regs = registrations(F)
+    cg = CallGraph(F)
+    seen, parent = cg.reachable([g["body"] for g in regs if g["body"]])
+    names = {g["body"]: "%s.%s" % (hir.last(g["self_ty"] or "?"), g["name"]) for g in regs if g["body"]}
+    nb = 0
+    for p in sorted(seen):
+        b = F.body(p)
+        if b is None or not b.mir or "::tests::" in p:
+            continue
+        if not (b.file.startswith("src/runtime/basic") or b.file.startswith("src/runtime/io") or b.file.startswith("src/value/")):
+            continue
+        nb += 1
+        for line, ka, kb, guarded in _unguarded_subs(b):
+            label = names.get(p, p)
+            r.inst("%s|%s - %s" % (label, ka, kb), {"fn": label, "line": line, "guarded": guarded})
+            if guarded or any(p.endswith(k[0]) and k[1] == "%s - %s" % (ka, kb) for k in K3_OK):
+                continue
+            r.bad("builtin " + label, "unsigned %s - %s" % (ka, kb), relfile(b.file), line,
+                  "unsigned subtraction with no dominating comparison of its operands: when the right side is larger this panics inside the extern \"C\" trampoline (debug) or wraps to a huge size (release). Reached via %s"
+                  % " -> ".join(names.get(x, hir.last(x)) for x in cg.chain(parent, p)))
+    r.note("built-in bodies and callees inspected: %d" % nb)
+    if nb < 100:
+        r.missing("100+ built-in bodies and callees (found %d)" % nb)
+    return r
+
+
+def canary(C):
+    fired = []
+    for b in C.all_bodies():
+        if b.mir and "arith" in b.path:
+            for line, ka, kb, guarded in _unguarded_subs(b):
+                if not guarded:
+                    fired.append("%s|%s - %s" % (b.path, ka, kb))
+    return [{"rule": "C10.K3", "fired": fired, "expect_min": 2, "expect_absent": ["guarded_len_minus_one", "checked"]}]
+
+
 def rules(ctx):
     F = ctx["F"]
-    return [rule_k1(F), rule_k2(F)]
+    return [rule_k1(F), rule_k2(F), rule_k3(F)]
